@@ -29,8 +29,9 @@ EXTENDS Naturals, Integers, Sequences, FiniteSets, TLC
 
 CONSTANTS
   MaxIdx,       \* indices are 0..MaxIdx-1
-  FaultKinds    \* which faults the oracle may inject:
+  FaultKinds,   \* which faults the oracle may inject:
                 \* "short" "fetchErr" "quota" "fatal" "rootErr" "sthErr" "consErr" "cancel" "revoke"
+  KeepHist      \* TRUE: record the environment's choices (hist, pass, calls) for replay; FALSE: finite state space
 
 None == [k |-> "none"]
 Idx == 0..(MaxIdx - 1)
@@ -77,8 +78,10 @@ Consistent(n) == ~cfg.forked \/ n <= cfg.forkAt
 Contig == IF \A i \in Idx : dest[i] # None THEN MaxIdx ELSE CHOOSE n \in Idx : dest[n] = None /\ \A i \in 0..(n - 1) : dest[i] # None
 Has(k) == k \in FaultKinds /\ faults > 0
 
-Log(e) == hist' = Append(hist, e)
-Call == calls' = calls + 1
+Log(e) == hist' = IF KeepHist THEN Append(hist, e) ELSE hist
+Call == calls' = IF KeepHist THEN calls + 1 ELSE calls
+NewPass == pass' = (IF KeepHist THEN pass + 1 ELSE pass) /\ calls' = (IF KeepHist THEN 1 ELSE calls)
+Terminal == flags' = flags \cup {"terminal"}     \* a fault after which completion is not promised
 
 (* ---------- the destination: AddSequenced ---------- *)
 \* leaves: a function from a set of indices to leaves.  Identical (index, content): no change;
@@ -97,25 +100,25 @@ Fail(w) == /\ pc' = "unwind" /\ why' = w
 
 GetRoot ==
   /\ pc = "start" /\ CanRun
-  /\ pass' = pass + 1 /\ calls' = 1
+  /\ NewPass
   /\ \/ /\ root' = destSize /\ sth' = -1 /\ proved' = FALSE /\ pc' = "prepare"
         /\ Log([ev |-> "GetRoot", pass |-> pass + 1, size |-> destSize, code |-> "OK"])
-        /\ UNCHANGED <<why, result, pos, gen, faults>>
-     \/ /\ Has("rootErr") /\ faults' = faults - 1
+        /\ UNCHANGED <<why, result, pos, gen, faults, flags>>
+     \/ /\ Has("rootErr") /\ faults' = faults - 1 /\ Terminal
         /\ pc' = "unwind" /\ why' = "err" /\ root' = 0 /\ sth' = -1 /\ proved' = FALSE
         /\ Log([ev |-> "GetRoot", pass |-> pass + 1, size |-> 0, code |-> "ERR"])
         /\ UNCHANGED <<result, pos, gen>>
-  /\ UNCHANGED <<cfg, dest, pipe, envv, restarts, verified, flags>>
+  /\ UNCHANGED <<cfg, dest, pipe, envv, restarts, verified>>
 
 PrepareSTH ==
   /\ pc = "prepare" /\ Call
   /\ \/ /\ sth' = srcSize
         /\ pc' = IF srcSize <= pos THEN "passDone" ELSE "verify"     \* nothing new: the pass is over
         /\ Log([ev |-> "STH", pass |-> pass, size |-> srcSize, code |-> "OK"])
-        /\ UNCHANGED <<why, result, pos, root, proved, gen, faults>>
-     \/ /\ Has("sthErr") /\ faults' = faults - 1 /\ Fail("err")
+        /\ UNCHANGED <<why, result, pos, root, proved, gen, faults, flags>>
+     \/ /\ Has("sthErr") /\ faults' = faults - 1 /\ Fail("err") /\ Terminal
         /\ Log([ev |-> "STH", pass |-> pass, size |-> 0, code |-> "ERR"])
-  /\ UNCHANGED <<cfg, dest, pipe, envv, restarts, verified, flags, pass>>
+  /\ UNCHANGED <<cfg, dest, pipe, envv, restarts, verified, pass>>
 
 FirstIndex == IF cfg.cont THEN Max(root, pos)
               ELSE IF cfg.start < 0 THEN root ELSE Max(cfg.start, pos)
@@ -125,19 +128,19 @@ Verify ==
   /\ pc = "verify"
   /\ IF root = 0
        THEN /\ pc' = "run" /\ gen' = FirstIndex /\ verified' = Max(verified, sth)
-            /\ UNCHANGED <<why, result, pos, root, sth, proved, faults, calls, hist>>
+            /\ UNCHANGED <<why, result, pos, root, sth, proved, faults, calls, hist, flags>>
        ELSE /\ Call
             /\ \/ /\ Consistent(root)
                   /\ proved' = TRUE /\ pc' = "run" /\ gen' = FirstIndex /\ verified' = Max(verified, sth)
                   /\ Log([ev |-> "Cons", pass |-> pass, code |-> "OK", valid |-> TRUE])
-                  /\ UNCHANGED <<why, result, pos, root, sth, faults>>
+                  /\ UNCHANGED <<why, result, pos, root, sth, faults, flags>>
                \/ /\ ~Consistent(root)                      \* whatever the source sends does not verify: refuse
-                  /\ Fail("err") /\ UNCHANGED <<verified, faults>>
+                  /\ Fail("err") /\ UNCHANGED <<verified, faults>> /\ Terminal
                   /\ Log([ev |-> "Cons", pass |-> pass, code |-> "OK", valid |-> FALSE])
                \/ /\ Has("consErr") /\ faults' = faults - 1
-                  /\ Fail("err") /\ UNCHANGED verified
+                  /\ Fail("err") /\ UNCHANGED verified /\ Terminal
                   /\ Log([ev |-> "Cons", pass |-> pass, code |-> "ERR", valid |-> FALSE])
-  /\ UNCHANGED <<cfg, dest, pipe, envv, restarts, flags, pass>>
+  /\ UNCHANGED <<cfg, dest, pipe, envv, restarts, pass>>
 
 (* ---------- fetcher: range generator and workers ---------- *)
 AssignRange ==
@@ -181,9 +184,9 @@ Submit(h) ==
         /\ UNCHANGED <<dest, flags, ctl>>
      \/ /\ Has("fatal") /\ faults' = faults - 1               \* any other code: the pass fails
         /\ hold' = hold \ {h}
-        /\ Fail("err")
+        /\ Fail("err") /\ Terminal
         /\ Log([ev |-> "Add", pass |-> pass, start |-> h.s, n |-> h.n, code |-> "Internal"])
-        /\ UNCHANGED <<dest, flags>>
+        /\ UNCHANGED dest
   /\ UNCHANGED <<cfg, out, bag, envv, restarts, verified, pass>>
 
 Wake(h) ==
@@ -223,8 +226,8 @@ StragglerFetch(r) ==
 EndUnwind ==
   /\ pc = "unwind"
   /\ out' = {} /\ bag' = {} /\ hold' = {}
-  /\ CASE why = "cancel" -> Return("canceled") /\ UNCHANGED pos
-       [] why = "revoke" -> pc' = "await" /\ why' = "" /\ UNCHANGED <<result, pos, hist>>
+  /\ CASE why = "cancel" -> (Return("canceled") /\ UNCHANGED pos)
+       [] why = "revoke" -> (pc' = "await" /\ why' = "" /\ UNCHANGED <<result, pos, hist>>)
        [] OTHER -> IF cfg.mode = "master" /\ cfg.cont
                      THEN pc' = "start" /\ why' = "" /\ pos' = 0 /\ UNCHANGED <<result, hist>>   \* runWithRestarts
                      ELSE Return("error") /\ UNCHANGED pos
@@ -251,8 +254,8 @@ Cancel ==
   /\ Has("cancel") /\ alive /\ pc # "returned"
   /\ faults' = faults - 1 /\ alive' = FALSE
   /\ pc' = "unwind" /\ why' = "cancel"
-  /\ Log([ev |-> "Cancel", pass |-> pass, calls |-> calls])
-  /\ UNCHANGED <<cfg, srcSize, dest, destSize, pipe, master, restarts, verified, flags, pass, calls, result, pos, root, sth, proved, gen>>
+  /\ Log([ev |-> "Cancel", pass |-> pass, calls |-> calls]) /\ Terminal
+  /\ UNCHANGED <<cfg, srcSize, dest, destSize, pipe, master, restarts, verified, pass, calls, result, pos, root, sth, proved, gen>>
 
 Revoke ==
   /\ Has("revoke") /\ cfg.mode = "master" /\ master /\ alive /\ pc \notin {"returned", "await"}
@@ -270,8 +273,9 @@ Restart ==
   /\ pc = "returned" /\ result # "nil" /\ restarts > 0
   /\ restarts' = restarts - 1 /\ alive' = TRUE
   /\ pc' = "start" /\ pos' = 0 /\ result' = "" /\ why' = ""
+  /\ flags' = flags \ {"terminal"}
   /\ Log([ev |-> "Restart", pass |-> pass])
-  /\ UNCHANGED <<cfg, srcSize, dest, destSize, pipe, master, faults, verified, flags, pass, calls, root, sth, proved, gen>>
+  /\ UNCHANGED <<cfg, srcSize, dest, destSize, pipe, master, faults, verified, pass, calls, root, sth, proved, gen>>
 
 (* ---------- initial states ---------- *)
 InitWith(c) ==
@@ -318,7 +322,8 @@ PrefixOK == destSize <= Contig
 Safety == Mirror /\ Bounded /\ Gate /\ NoConflict /\ QuotaRetried /\ Complete /\ VerbatimBad /\ PrefixOK
 
 (* ---------- liveness ---------- *)
-Fair == /\ WF_vars(Controller) /\ WF_vars(AssignRange)
-        /\ \A s \in Idx, n \in 1..MaxIdx : WF_vars(\E r \in out : r.s = s /\ (Fetch(r) \/ StragglerFetch(r)))
-        /\ WF_vars(Submitters) /\ WF_vars(Integrate) /\ WF_vars(Regain)
+Fair == WF_vars(Controller) /\ WF_vars(Workers) /\ WF_vars(Submitters) /\ WF_vars(Integrate) /\ WF_vars(Regain)
+Covered == destSize = srcSize /\ \A i \in 0..(srcSize - 1) : dest[i] # None
+\* finite faults, honest source: the migration completes (one-shot: returns nil; continuous: catches up again and again)
+Progress == []<>("terminal" \in flags \/ result = "nil" \/ (cfg.cont /\ Covered))
 =============================================================================
